@@ -378,7 +378,7 @@ func init() {
 	var subs []core.Sub
 	for _, k := range wrx.Kinds {
 		kind := k
-		subs = append(subs, core.Sub{Name: "inproc-" + kind, N: core.Const(24, 60), Run: func(c *core.Ctx) { runInproc(c, kind) }})
+		subs = append(subs, core.Sub{Name: "inproc-" + kind, N: core.Const(24, 60), Shard: 2, TimeoutS: 3000, Run: func(c *core.Ctx) { runInproc(c, kind) }})
 	}
 	subs = append(subs,
 		core.Sub{Name: "e2e-devfull", N: core.Const(25, 100), Run: runDevFull},
